@@ -85,6 +85,8 @@ func set.Add
   requires unlocked(s.applyMutex) && unlocked(s.readableSet.SerializableOrderedMap.OrderedMap.mutex)
   modifies everything
   preserves ghost(smem), ghost(salive), ghost(madd), ghost(mdel)
+  -- single-element writers change the map inside a read section of applyMutex (which Apply / Compute / Replace exclude)
+  ghost before call OrderedMap.Set: assert rheld(s.applyMutex)
   ensures unlocked(s.applyMutex)
   ensures r0 <==> !old(has(s.readableSet.SerializableOrderedMap.OrderedMap.dictionary.m, element))
   ensures has(s.readableSet.SerializableOrderedMap.OrderedMap.dictionary.m, element)
@@ -97,6 +99,7 @@ func set.Delete
   requires unlocked(s.applyMutex) && unlocked(s.readableSet.SerializableOrderedMap.OrderedMap.mutex)
   modifies everything
   preserves ghost(smem), ghost(salive), ghost(madd), ghost(mdel)
+  ghost before call OrderedMap.Delete: assert rheld(s.applyMutex)
   ensures unlocked(s.applyMutex)
   ensures r0 <==> old(has(s.readableSet.SerializableOrderedMap.OrderedMap.dictionary.m, element))
   ensures !has(s.readableSet.SerializableOrderedMap.OrderedMap.dictionary.m, element)
